@@ -452,11 +452,20 @@ func (p *pathState) checkAssert(site string, c *smt.Term, msg string) {
 		}
 	}
 	// continue under the assumption that the assertion holds
+	if c.IsFalse() {
+		panic(pathAbort{kind: abortInfeasible, msg: "path continues only inside a known finding region"})
+	}
 	p.assume(c)
 	if len(known) > 0 {
 		// the path may now continue only vacuously (inside a known region the
-		// assertion never holds); its feasibility is settled lazily
-		p.lazy = true
+		// assertion never holds)
+		if !smt.HasFP(c) {
+			if p.sess.Check() == smt.Unsat {
+				panic(pathAbort{kind: abortInfeasible, msg: "path continues only inside a known finding region"})
+			}
+		} else {
+			p.lazy = true // settled lazily at the end of the path
+		}
 	}
 }
 
